@@ -295,6 +295,17 @@ func newDecoder(fileIO fileIO, delegate DecoderDelegate, indexPath string, numGo
 		return nil, err
 	}
 
+	sliceByteCount := indexFile.mainPacket.sliceByteCount
+	for _, info := range recoverySet {
+		sliceCount := info.byteCount / sliceByteCount
+		if info.byteCount%sliceByteCount != 0 {
+			sliceCount++
+		}
+		if len(info.checksumPairs) != sliceCount {
+			return nil, errors.New("slice checksum count does not match file byte count")
+		}
+	}
+
 	return &Decoder{
 		fileIO, delegate,
 		indexPath,
